@@ -428,10 +428,10 @@ func c13Exec(c *Ctx, k c13Case, choices []int) {
 
 func c13Run(c *Ctx) {
 	mustBeDefault(c)
-	c.S.Rule = "cases = (stream, function, reader kind, handler stop point); streams are concatenations of 1..3 documents (XML: <a/>, <a>x</a>, <a b=\"1\"><c/>t</a>, a document with XML declaration; JSON: {\"a\":1}, a string value with braces and quotes, a string ending in an escaped backslash, a string with an escaped backslash followed by an escaped quote, nested object/array with a bracket in a string) with separators {none, space, newline+tab} and optional trailing blanks; functions NewMapXmlReader[Raw], NewMapXmlSeqReader[Raw], NewMapJsonReader[Raw], HandleXmlReader[Raw], HandleJsonReader[Raw] (map handler returning false at every k), x2j-wrapper ToMap / XmlMsgsFromReader; reader kinds plain io.Reader and io.Reader+io.ByteReader. Schedules (E-choice): every Read call is a choice point - default full delivery, short read, (0,nil) (at most 2 in a row), final data together with io.EOF - explored exhaustively for deviation bound 0,1,2 (3 in thorough on single documents); plus patterned schedules with 50 and 97 empty reads before every delivery (bound 1 over the remaining choices); plus large first documents (about 4090, 4096, 4100 and 9000 bytes: around the 4096-byte buffers of bufio and the tokenizer) followed by a small one, delivered whole, 1 byte, 7 bytes and 4096 bytes per Read (bound 0). Oracle: results = direct decodes in order then io.EOF, no over-read into the next document, Raw values as documented, handlers once per document in order and stop on false, termination within the reader horizon. non-trivial = executions with at least one deviation (counted in counters.deviating_schedules)."
+	c.S.Rule = "cases = (stream, function, reader kind, handler stop point); streams are concatenations of 1..3 documents (XML: <a/>, <a>x</a>, <a b=\"1\"><c/>t</a>, a document with XML declaration, a document with 2-, 3- and 4-byte characters in names and values (every delivery split falls inside them); JSON: {\"a\":1}, a string value with braces and quotes, a string ending in an escaped backslash, a string with an escaped backslash followed by an escaped quote, nested object/array with a bracket in a string, multi-byte characters in key and value) with separators {none, space, newline+tab} and optional trailing blanks; functions NewMapXmlReader[Raw], NewMapXmlSeqReader[Raw], NewMapJsonReader[Raw], HandleXmlReader[Raw], HandleJsonReader[Raw] (map handler returning false at every k), x2j-wrapper ToMap / XmlMsgsFromReader; reader kinds plain io.Reader and io.Reader+io.ByteReader. Schedules (E-choice): every Read call is a choice point - default full delivery, short read, (0,nil) (at most 2 in a row), final data together with io.EOF - explored exhaustively for deviation bound 0,1,2 (3 in thorough on single documents); plus patterned schedules with 50 and 97 empty reads before every delivery (bound 1 over the remaining choices); plus large first documents (about 4090, 4096, 4100 and 9000 bytes: around the 4096-byte buffers of bufio and the tokenizer) followed by a small one, delivered whole, 1 byte, 7 bytes and 4096 bytes per Read (bound 0). Oracle: results = direct decodes in order then io.EOF, no over-read into the next document, Raw values as documented, handlers once per document in order and stop on false, termination within the reader horizon. non-trivial = executions with at least one deviation (counted in counters.deviating_schedules)."
 	c.S.Assumptions = []string{"JSON raw = the document with JSON-insignificant white space removed (the implementation strips it by design)", "the empty JSON object {} is not in the alphabet (handlers treat an empty Map as 'nothing arrived yet' by design)", "an io.ByteReader cannot legally deliver a byte together with an error, so that kind has only the default schedule"}
-	xmlDocs := []string{`<a/>`, `<a>x</a>`, `<a b="1"><c/>t</a>`, `<?xml version="1.0"?><a>y</a>`}
-	jsonDocs := []string{`{"a":1}`, `{"a":"}{\""}`, `{"a":"x\\"}`, `{"a":{"b":[1,{"c":"]"}]}}`, `{"e":"\\\"{"}`, `{"p":"C:\\dir\\ "}`}
+	xmlDocs := []string{`<a/>`, `<a>x</a>`, `<a b="1"><c/>t</a>`, `<?xml version="1.0"?><a>y</a>`, "<\u00e9 k=\"\u20ac\">\U0001F600</\u00e9>"}
+	jsonDocs := []string{`{"a":1}`, `{"a":"}{\""}`, `{"a":"x\\"}`, `{"a":{"b":[1,{"c":"]"}]}}`, `{"e":"\\\"{"}`, `{"p":"C:\\dir\\ "}`, "{\"\u00e9\":\"\u20ac\U0001F600\"}", "{\"p\":\"C:\\\\\u20ac\"}"}
 	xmlFns := []string{"NewMapXmlReader", "NewMapXmlReaderRaw", "NewMapXmlSeqReader", "NewMapXmlSeqReaderRaw", "HandleXmlReader", "HandleXmlReaderRaw", "x2j-wrapper.ToMap", "x2j-wrapper.XmlMsgsFromReader"}
 	jsonFns := []string{"NewMapJsonReader", "NewMapJsonReaderRaw", "HandleJsonReader", "HandleJsonReaderRaw"}
 	maxDocs := 2
@@ -479,6 +479,12 @@ func c13Run(c *Ctx) {
 	}
 	build(xmlDocs, xmlFns)
 	build(jsonDocs, jsonFns)
+	for _, d := range []string{`<?xml version="1.0"?><a>y</a>`, `<!-- c --><a/>`, `<!DOCTYPE a><a b="1">t</a>`, `<?pi x?><!-- c --><a><b/></a>`} {
+		if c.Mine() {
+			c.S.States++
+			c13SeqProlog(c, d)
+		}
+	}
 	// patterned schedules: 50 / 97 empty reads before every delivery (legal: fewer than 100 in a row), on the
 	// plain-reader cases with two documents or trailing blanks
 	for _, k := range append([]c13Case(nil), cases...) {
@@ -563,4 +569,67 @@ func c13Run(c *Ctx) {
 		c.sampleN++
 	}
 	resetOptions()
+}
+
+// c13SeqProlog: a document whose root is preceded by a declaration, comment or DOCTYPE. The sequence decoder
+// documents a no-root result for the leading item; its reader and raw-reader forms must return what the
+// byte form returns (Map and error alike) for every call until the stream ends.
+func c13SeqProlog(c *Ctx, doc string) {
+	cas := c13Case{Docs: []string{doc}, Fn: "NewMapXmlSeqReader[Raw] with prolog"}
+	type step struct {
+		m   string
+		err string
+	}
+	run := func(kind int) (out []step, raws []string) {
+		r := newHR([]byte(doc))
+		for i := 0; i < 6; i++ {
+			var m mxj.MapSeq
+			var err error
+			var raw []byte
+			switch kind {
+			case 0:
+				m, err = mxj.NewMapXmlSeqReader(r)
+			default:
+				m, raw, err = mxj.NewMapXmlSeqReaderRaw(r)
+				raws = append(raws, string(raw))
+			}
+			e := ""
+			if err != nil {
+				e = err.Error()
+			}
+			out = append(out, step{dump(map[string]interface{}(m)), e})
+			if err == io.EOF {
+				break
+			}
+		}
+		return
+	}
+	var a, b []step
+	var raws []string
+	st, pan := protect(func() {
+		a, _ = run(0)
+		b, raws = run(1)
+	})
+	c.S.Transitions += 2
+	c.S.Validated++
+	if pan {
+		c.Violate("NewMapXmlSeqReaderRaw", "panic", "prolog", cas, nil, st)
+		return
+	}
+	if fmt.Sprint(a) != fmt.Sprint(b) {
+		c.Violate("NewMapXmlSeqReaderRaw", "sequence", "prolog", cas, nil, fmt.Sprintf("doc=%q\n NewMapXmlSeqReader   : %v\n NewMapXmlSeqReaderRaw: %v", doc, a, b))
+		return
+	}
+	if got := strings.Join(raws, ""); !strings.HasPrefix(doc, got) && !strings.HasPrefix(got, doc) {
+		c.Violate("NewMapXmlSeqReaderRaw", "raw", "prolog", cas, nil, fmt.Sprintf("doc=%q raws=%q", doc, raws))
+	}
+	// first result = what the byte form returns for the whole document
+	m0, e0 := mxj.NewMapXmlSeq([]byte(doc))
+	es := ""
+	if e0 != nil {
+		es = e0.Error()
+	}
+	if len(a) == 0 || a[0].m != dump(map[string]interface{}(m0)) || a[0].err != es {
+		c.Violate("NewMapXmlSeqReader", "sequence", "prolog", cas, nil, fmt.Sprintf("doc=%q first reader result %v, NewMapXmlSeq gives %s / %q", doc, a, dump(map[string]interface{}(m0)), es))
+	}
 }
